@@ -19,6 +19,9 @@
                  `Run.finished = false` = fuel exhausted (Lemmas/C06Sched.lean: never with
                  `fuel ≥ measure + 1`), `Run.rounds` counts the turns of the loop (proof bookkeeping only).
   * `Priv`, `azAlg`, `hdAlg`, `vecAlg`, `zdAlg` : the four modelled strategies wrapped as `Alg`.
+  * `AiPriv`, `aiAlg`, `modelledAlgs` (round 4) : AcordIntersection (Gama/Model/AcordIntersection.lean) wrapped as
+                 `Alg`, and the constructor's list restricted to the five modelled strategies.  EXECUTED: `drv_cogo`, op
+                 `acord2`, runs `execute` on `modelledAlgs` next to the real `Acord2::execute` (harness/c06_cogo.cpp).
   * `algorithms` : the order in which the constructor of Acord2 pushes the strategy objects.
 
   NOT modelled here: the return value `solved` (differences of the two sizes before/after), the final loop
